@@ -257,6 +257,14 @@ def _check_native(mode):
                 c = Circuit([U3(th, ph, la)(q)], n_qubits=3)
                 if not equiv(mat(decompose_orquestra_circuit(c, [rule]), 3), mat(c, 3)):
                     return False, f"plain U3{(th, ph, la)} on qubit {q}: decomposition is not equivalent up to a global phase"
+                # the same gate under the other modifiers (whatever the rule does with them - leave alone or decompose - the action must stay)
+                for wname, g in (("dagger", U3(th, ph, la).dagger), ("dagger of controlled", U3(th, ph, la).controlled(1).dagger), ("power 2", U3(th, ph, la).power(2))):
+                    qs = (q,) if g.num_qubits == 1 else ((q + 1) % 3, q)
+                    c = Circuit([g(*qs)], n_qubits=3)
+                    if (ph + la) % (4 * np.pi) != 0 and g.num_qubits > 1:
+                        continue           # controlled U3 with phi + lambda != 0 mod 4 pi: the known finding, reported by C18.cu3.equiv
+                    if not equiv(mat(decompose_orquestra_circuit(c, [rule]), 3), mat(c, 3)):
+                        return False, f"{wname} of U3{(th, ph, la)} on {qs}: after applying the rule the circuit no longer acts as the original up to a global phase"
         return True, "ok"
     if mode == 1:
         for th, ph, la in [(0.7, 2.5 * np.pi, 1.5 * np.pi), (2 * np.pi + 0.4, 0.3, -0.3), (1.3, 4 * np.pi - 1.0, 1.0), (5.5, -2 * np.pi, -2 * np.pi)]:
